@@ -323,6 +323,21 @@ func genC10(tier string, r *rng) {
 		emitTree(true, []string{"d"}, []*node{dir("d", dir("s", bad(k, "x"), f("y")), f("t"))})
 	}
 	emitTree(true, []string{"d"}, []*node{dir("d", f("a"), f("B"), f("a.b"), dir("a b", f("x")), f("a-"), f("a/"[:1]+"0"), dir("A", f("q")))})
+	// sort-order traps: a directory whose name is a proper prefix of a sibling that continues with a byte below '/'
+	for _, sib := range []string{"a.txt", "a-old", "a b", "a!", "a.", "a+", "a,b"} {
+		emitTree(true, []string{"d"}, []*node{dir("d", dir("a", f("x"), f("y")), f(sib), f("b"))})
+		emitTree(true, []string{"d"}, []*node{dir("d", dir("a", dir("a", f("z")), f(sib)), f(sib), dir("b", f("q")))})
+	}
+	// byte-identical content under a reserved SSH file name and under other names, in both sort orders
+	keyLine := []byte("ssh-ed25519 AAAAC3NzaC1lZDI1NTE5AAAAIJxs8F0Bk4v0Xx0m9GTPF4k1q1m2Ztd3Gm2YX3R0Qq3x a@b")
+	kh := []byte("example.com ssh-ed25519 AAAAC3NzaC1lZDI1NTE5AAAAIJxs8F0Bk4v0Xx0m9GTPF4k1q1m2Ztd3Gm2YX3R0Qq3x\n")
+	fc := func(n string, c []byte) *node { return &node{kind: "F", name: n, content: c} }
+	emitTree(true, []string{"d"}, []*node{dir("d", fc("authorized_keys", keyLine), fc("id_ed25519.pub", keyLine), fc("a.pub", keyLine))})
+	emitTree(true, []string{"d"}, []*node{dir("d", fc("known_hosts", kh), fc("known_hosts.bak", kh), fc("hosts", kh))})
+	emitTree(true, []string{"d"}, []*node{dir("d", dir("s", fc("known_hosts", kh)), dir("t", fc("copy", kh), fc("known_hosts", kh)), fc("zz", kh))})
+	emitTree(true, []string{"d", "e2"}, []*node{dir("d", fc("x.pub", keyLine)), dir("e2", fc("authorized_keys", keyLine), fc("y.pub", keyLine))})
+	emitTree(false, []string{"authorized_keys", "k.pub"}, []*node{fc("authorized_keys", keyLine), fc("k.pub", keyLine)})
+	emitTree(false, []string{"k.pub", "authorized_keys", "k.pub"}, []*node{fc("authorized_keys", keyLine), fc("k.pub", keyLine)})
 	emitTree(true, []string{"dang"}, []*node{bad("DG", "dang")})
 	emitTree(false, []string{"dang"}, []*node{bad("DG", "dang")})
 	emitTree(false, []string{"d"}, []*node{dir("d", f("a"))})
